@@ -103,6 +103,19 @@ class Main(pipeline.Stream):
         import jsonrpclib.config as C
         self.J, self.C = J, C
         self.peer = None
+        # frequent strings are defined once per case file (parsing string literals dominates coqc's time)
+        common = set(NAMES) | set(n.lower() for n in NAMES) | set(str(v) for v in VALS) | {
+            "Accept-Encoding", "gzip", "Content-Type", "Content-Length", "User-Agent", "application/json", "agent/1.0 (x)",
+            "agent/2.0", C.DEFAULT.content_type, C.DEFAULT.user_agent, "Basic dXNlcjpwdw==", "Basic Ym9iOnNAY3JldA==", "Basic dTpw"}
+        self.table = {}
+        defs = ["Fixpoint filler (n : nat) : string := match n with O => EmptyString | S k => String \"x\"%char (filler k) end."]
+        for k, t in enumerate(sorted(common)):
+            self.table[t] = "S%d" % k
+            defs.append("Definition S%d : string := %s." % (k, G.g_str(t)))
+        self.extra_defs = "\n".join(defs) + "\n"
+
+    def _s(self, t):
+        return self.table.get(t) or G.g_str(t)
 
     def teardown(self):
         if self.peer is not None:
@@ -370,8 +383,8 @@ class Main(pipeline.Stream):
         return None
 
     # ------------------------------------------------------------------ encoding for Coq
-    @staticmethod
-    def _g_hdict(d):
+    def _g_hdict(self, d):
+        tbl = self._s
         items = []
         for k, v in d.items():
             if not isinstance(k, str) or not k.isascii():
@@ -380,7 +393,7 @@ class Main(pipeline.Stream):
                 raise ValueError("float outside the table")
             if not (v is None or isinstance(v, (str, bool, int, float))):
                 raise ValueError("value outside the model")
-            items.append("(%s, %s)" % (G.g_str(k), G.g_val(v)))
+            items.append("(%s, %s)" % (tbl(k), "(VStr %s)" % tbl(v) if isinstance(v, str) else G.g_val(v)))
         return G.g_list(items)
 
     def encode(self, case, obs):
@@ -391,7 +404,7 @@ class Main(pipeline.Stream):
             extra = "[]"
             if case["userinfo"]:
                 from urllib.parse import unquote_to_bytes
-                extra = '[("Authorization", %s)]' % G.g_str("Basic " + base64.b64encode(unquote_to_bytes(case["userinfo"])).decode("ascii"))
+                extra = '[("Authorization", %s)]' % self._s("Basic " + base64.b64encode(unquote_to_bytes(case["userinfo"])).decode("ascii"))
             ctor = "None" if case["ctor"] is None else "(Some %s)" % self._g_hdict(case["ctor"])
             bodies = [e[2] for e in obs if e[0] == "lines"]
             bi = 0
@@ -406,20 +419,20 @@ class Main(pipeline.Stream):
                     # a filler of the same number of bytes as the body actually sent keeps the case files small
                     body = bodies[bi] if bi < len(bodies) else b""
                     bi += 1
-                    ops.append("(ORequest %s)" % G.g_str(b"x" * len(body)))
+                    ops.append("(ORequest (filler %d%%nat))" % len(body))
             evs = []
             for e in obs:
                 if e[0] == "lines":
                     if not all(isinstance(v, str) for _, v in e[1]):
                         return None
-                    evs.append("(EvLines (Ok %s))" % G.g_list(["(%s, %s)" % (G.g_str(k), G.g_str(v)) for k, v in e[1]]))
+                    evs.append("(EvLines (Ok %s))" % G.g_list(["(%s, %s)" % (self._s(k), self._s(v)) for k, v in e[1]]))
                 elif e[0] == "stack":
                     evs.append("(EvStack %s)" % G.g_list([self._g_hdict(d) for d in e[1]]))
                 else:
                     evs.append("(EvLines (Raise %s))" % G.g_exn(e[1]))
         except ValueError:
             return None
-        return "(%s, %s, %s, %s, %s, %s)" % (extra, G.g_str(cfg.content_type), G.g_str(cfg.user_agent), ctor,
+        return "(%s, %s, %s, %s, %s, %s)" % (extra, self._s(cfg.content_type), self._s(cfg.user_agent), ctor,
                                              G.g_list(ops), G.g_list(evs))
 
     # ------------------------------------------------------------------ bookkeeping
